@@ -17,6 +17,11 @@ Alphabet
       delivery "ok" | "lost": the proxied response reaches the viewer / is lost on the way (viewer's ack does not advance) [dev]
   ("inject", "ev" | "msg")   proxy injects an event (eq_manager.inject_event / inject_message); at most 2 between polls
   ("teardown",)              region torn down (mark_dead) and the viewer starts over on a new circuit with ack undef      [dev]
+  In the multi-region search every event carries a trailing region index r: the session has 2 (thorough 3) regions, each with
+  its own EventQueueGet cap, circuit and viewer-side ack; polls / injections / teardowns of different regions interleave and
+  a response of any region may announce a further region (EstablishAgentCommunication -> a new ProxiedRegion is built).
+  Region announcements also include a known *handle* re-announced at a new address (region restarted on another simhost)
+  and a known address announced with a new handle.
 
 Reference model (plain Python): viewer ack, previous poll (ack, final body), simulator's next response id, pending
 injection tags, announced regions {addr: [handle, seed]}.  Per poll it predicts the exact body the viewer must be sent.
@@ -30,6 +35,7 @@ Oracle (one clause per sentence of the property; see ``_classify``):
   emptied-not-undef : a response whose events were all swallowed (nothing injected) has the undef body
   undef-passthrough, non200-passthrough : 200/undef and non-200 answers reach the viewer unchanged and consume no injection
       (observed through the *next* response that carries events)
+  event-in-other-regions-response : an event injected into / sent by region r never shows up in another region's response
   region-* : after the round session.regions holds exactly one region per announced address with the announced
       handle / most recent seed; an announcement the addon swallowed registers nothing (as coded; own clause)
 
@@ -262,10 +268,6 @@ class Harness:
         if ev[0] == "poll":
             return int(ev[1] == "rep") + int(ev[2] in STATUS_BODIES) + int(ev[4] == "lost")
         return 0
-
-    def _r(self, *tail) -> tuple:
-        """Events of the single-region searches keep their short form (region 0 implied)."""
-        return tuple(tail)
 
     def enabled(self, w: World):
         evs: List[tuple] = []
@@ -599,16 +601,19 @@ class Harness:
 # ---------------------------------------------------------------------------------------------------- searches
 def searches(tier: str):
     """(harness, depth, deviation bound). Quick is the same space with smaller bounds / menus."""
+    multi = dict(statuses=(), inject=("ev",), rep=False, lost=False, swallows=("none",))
     if tier == "quick":
         return [
             (Harness(("p", "t", "pt"), label="delivery "), 4, 3),
-            (Harness(("t", "eac", "es", "tf", "cr", "tf0", "eac+es", "tf+tf"), statuses=(), undef=False, inject=(), teardown=False,
-                     label="regions "), 3, 2),
+            (Harness(("t", "eac", "es", "tf", "cr", "tf0", "es_mv", "tf_mv", "es_h3", "eac+es", "tf+tf"), statuses=(), undef=False,
+                     inject=(), teardown=False, label="regions "), 3, 2),
+            (Harness(("p", "eac"), n_regions=2, label="multi-region ", **multi), 4, 1),
         ]
     return [
         (Harness(("p", "t", "pt"), label="delivery "), 6, 3),
-        (Harness(("t", "eac", "es", "tf", "cr", "tf0", "eac+es", "tf+tf", "es+cr", "p+eac"), statuses=("502",), undef=False,
-                 inject=("ev",), teardown=False, label="regions "), 4, 3),
+        (Harness(("t", "eac", "es", "tf", "cr", "tf0", "es_mv", "tf_mv", "es_h3", "eac+es", "tf+tf", "es+cr", "p+eac"),
+                 statuses=("502",), undef=False, inject=("ev",), teardown=False, label="regions "), 4, 3),
+        (Harness(("p", "eac"), n_regions=3, label="multi-region ", **multi), 5, 2),
     ]
 
 
@@ -650,5 +655,6 @@ def replay(witness):
     cfg = witness.get("config") or {"sims": list(SIM_MENU)}
     h = Harness(tuple(cfg["sims"]), statuses=tuple(cfg.get("statuses", ("502", "499", "404"))), undef=cfg.get("undef", True),
                 inject=tuple(cfg.get("inject", ("ev", "msg"))), teardown=cfg.get("teardown", True), rep=cfg.get("rep", True),
-                lost=cfg.get("lost", True))
+                lost=cfg.get("lost", True), n_regions=int(cfg.get("n_regions", 1)),
+                swallows=tuple(cfg.get("swallows", ("none", "first", "all"))))
     return explore.replay_history(h, witness["history"])
